@@ -315,6 +315,7 @@ def gen_more(rng, n_ops, ref, keys, cfg, free=False, allow_reopen=True, allow_bi
         ops.append("read %s %s" % (hexs(p), " ".join(hexs(k) for k in ks if len(k) <= 64 or rng.chance(1, 4))))
 
     pending = lambda: sorted(e for (v, e) in ref.m.values() if e is not None)
+    snap_keys = set()        # keys that were in the snapshot written by the last explicit `compact`
     for _ in range(n_ops):
         r = rng.below(1000)
         k = rng.choice(keys)
@@ -368,6 +369,21 @@ def gen_more(rng, n_ops, ref, keys, cfg, free=False, allow_reopen=True, allow_bi
             op = "clear"
         elif r < 775:
             op = "compact"
+            ref.prune()
+            live_snap = [x for x in snap_keys if x in ref.m]
+            if r >= 750 and live_snap and not free:
+                # an expiry-change record ('X') for a key that lives in the last snapshot, then the key goes away, then a compaction:
+                # in the crash window "new snapshot renamed, old log not yet reset" that 'X' is an ORPHAN (complete, CRC-valid, skipped by replay)
+                kx = rng.choice(live_snap)
+                if ref.m[kx][1] is not None and rng.chance(1, 3):
+                    emit("persist %s" % hexs(kx))
+                else:
+                    emit("expireat %s %d" % (hexs(kx), min(ref.now + rng.choice([5000, 60000, 3600000]), MAXMS)))
+                emit(rng.choice(["remove %s" % hexs(kx), "remove %s" % hexs(kx), "rmprefix %s" % hexs(kx)]))
+                for _x in range(rng.range(0, 2)):
+                    emit("set %s %s" % (hexs(rng.choice(keys)), hexs(gen_value(rng))))
+                dist["orphan-X-shape"] = dist.get("orphan-X-shape", 0) + 1
+            snap_keys = None        # set below, after the compact has been applied
         elif r < 825 and allow_reopen:
             op = "reopen"
         elif r < 940 and clock:
@@ -401,6 +417,9 @@ def gen_more(rng, n_ops, ref, keys, cfg, free=False, allow_reopen=True, allow_bi
         else:
             op = "evict %s %s" % (hexs(rng.choice(keys + outside)), rng.choice(["cur", "cur", "cur", "stale", "zero"]))
         emit(op)
+        if snap_keys is None:
+            ref.prune()
+            snap_keys = set(ref.m)
         dist[op.split()[0]] = dist.get(op.split()[0], 0) + 1
         if free and rng.chance(1, 4):
             ops.append("sleep %d" % rng.choice([1, 2, 5, 12]))
